@@ -97,6 +97,19 @@ theorem set_binds_current (fuel : Nat) (name : Bytes) (i : Int64) (p : TokPos) (
   simp [execNode, eval, EStateM.run, bind, EStateM.bind, pure, EStateM.pure, modifyCur, modify, modifyGet,
     MonadStateOf.modifyGet, EStateM.modifyGet, hσ, mkV]
 
+/-- **`with` through the interpreter**: the pairs are evaluated in the enclosing context (a pair
+    does not see the pairs before it), the body runs in a child context whose private names are the
+    enclosing ones plus the pairs, and the child is popped afterwards
+    (`scoped_body_restores_current_context`): the names are visible exactly inside. -/
+theorem with_binds_in_a_child_context (fuel : Nat) (pairs : List (Bytes × Expr)) (body : List Node) :
+    execNode T cfg g (fuel + 1) (.tagWith pairs body) = (do
+      let fr ← cur
+      let pvs ← evalPairs T cfg g fuel pairs
+      withFrame { childOf fr with priv := pvs.foldl (fun (e : Env) kv => e.set kv.1 kv.2) (childOf fr).priv }
+        (execNodes T cfg g fuel body)) := by
+  unfold execNode
+  rfl
+
 /-! ### the caller's data -/
 
 /-- **A context key that is not an identifier is rejected**: execution fails
